@@ -483,7 +483,7 @@ class RTL(keras.layers.Layer):
 
     Returns:
       In eager mode directly updates weights and returns variable which stores
-      them. In graph mode returns a list of `assign_add` op which has to be
+      them. In graph mode returns a list of `assign` op which has to be
       executed to updates weights.
     """
     return list(lattice_layer.finalize_constraints()
